@@ -299,6 +299,9 @@ func runC12(ctx *Ctx) error {
 }
 
 func genC12(ctx *Ctx) error {
+	if err := genMediaSwitch(ctx); err != nil {
+		return err
+	}
 	rows := &c12Rows{}
 	if err := c12Body(ctx, rows); err != nil {
 		return err
